@@ -1,14 +1,79 @@
-//! cpc family: to be written (see /verif/AGENT_GUIDE.md).
+//! cpc family: replays case files on `datasketches::cpc::CpcSketch` (see Corr/Cpc.v for the op table).
+use datasketches::cpc::CpcSketch;
+
 use crate::{Family, Ob, PANIC};
 
-pub struct Fam;
+pub struct Fam {
+    lg_k: u8,
+    seed: u64,
+    sk: Option<CpcSketch>,
+}
+
+fn canon(bits: u64) -> i128 {
+    crate::fbits(f64::from_bits(bits))
+}
+
+fn summary(s: &CpcSketch) -> Ob {
+    let (c, off, fic, flavor, kxp, hip) = s.verif_summary();
+    vec![c as i128, off as i128, fic as i128, flavor as i128, canon(kxp), canon(hip)]
+}
 
 impl Family for Fam {
-    fn new(_cfg: &[i128]) -> Self {
-        Fam
+    fn new(cfg: &[i128]) -> Self {
+        Fam { lg_k: cfg[0] as u8, seed: cfg[1] as u64, sk: None }
     }
 
-    fn step(&mut self, _code: i64, _a: &[i128]) -> Ob {
-        vec![PANIC]
+    fn step(&mut self, code: i64, a: &[i128]) -> Ob {
+        match code {
+            0 => {
+                self.sk = None;
+                self.sk = Some(CpcSketch::with_seed(self.lg_k, self.seed));
+                vec![]
+            }
+            6 => vec![CpcSketch::verif_determine_flavor(a[0] as u8, a[1] as u32) as i128],
+            7 => vec![CpcSketch::verif_determine_correct_offset(a[0] as u8, a[1] as u32) as i128],
+            _ => {
+                let Some(s) = self.sk.as_mut() else { return vec![PANIC] };
+                match code {
+                    1 => {
+                        s.update(a[0] as i64);
+                        summary(s)
+                    }
+                    2 => {
+                        s.verif_row_col_update(a[0] as u32);
+                        summary(s)
+                    }
+                    3 => {
+                        let st = s.verif_state();
+                        let mut ob: Ob = vec![
+                            st.lg_k as i128,
+                            st.num_coupons as i128,
+                            st.window_offset as i128,
+                            st.first_interesting_column as i128,
+                            st.flavor as i128,
+                            st.merge_flag as i128,
+                            canon(st.kxp_bits),
+                            canon(st.hip_bits),
+                            st.has_table as i128,
+                        ];
+                        ob.push(st.window.len() as i128);
+                        ob.extend(st.window.iter().map(|b| *b as i128));
+                        ob.push(st.table.len() as i128);
+                        ob.extend(st.table.iter().map(|x| *x as i128));
+                        ob
+                    }
+                    4 => vec![s.validate() as i128],
+                    5 => s.verif_bit_matrix().iter().map(|w| *w as i128).collect(),
+                    8 => {
+                        if s.verif_state().merge_flag {
+                            vec![-1]
+                        } else {
+                            vec![crate::fbits(s.estimate())]
+                        }
+                    }
+                    _ => vec![PANIC],
+                }
+            }
+        }
     }
 }
